@@ -357,6 +357,13 @@ func runMsg(n *engine.Node, ctx sdk.Context, msg sdk.Msg) outcome {
 	var herr error
 	if err := engine.Catch("handler", func() error { _, herr = h(ctx, msg); return nil }); err != nil {
 		p := err.(*engine.Panic)
+		if strings.Contains(p.Value, "overflow") {
+			// the SDK's checked integers and decimals panic when a result leaves their range
+			// and baseapp turns that into a failed transaction: it depends on the magnitudes
+			// in the state and in the message, not on the parameter value "by itself", and is
+			// counted as an ordinary rejection of a message (never for begin/end block)
+			return outcome{"overflow", p.Value, engine.PanicSite(p.Stack)}
+		}
 		return outcome{"panic", p.Value, engine.PanicSite(p.Stack)}
 	}
 	if herr != nil {
